@@ -76,7 +76,7 @@ AtomTable ==
     PlT |-> TOf(Pl),
     I2v |-> Id(v2), I3v |-> Id(v3), Iqu |-> Id(QU2), Im |-> Id(m23),
     H2 |-> Hom(2, 1, v2), Hh |-> Hom(-1, 2, v2), H3 |-> Hom(3, 1, v3), Hq |-> Hom(-3, 1, QU2), Hm |-> Hom(1, 2, m23),
-    H6 |-> Hom(2, 1, v6) ]
+    H6 |-> Hom(2, 1, v6), D0 |-> D0, D0I |-> DInvOf(D0), D3I |-> DInvOf(D3), AB |-> AddT(<<A, B>>) ]
 
 AllAtomNames == DOMAIN AtomTable
 =============================================================================
